@@ -1,5 +1,5 @@
 """C13 - Outgoing QoS 1/2 messages keep publish() order, also when retransmitted.  Model M2 (coq/theories/Session), shared machinery in harness/session.py."""
-from harness import session, session2
+from harness import nested, session, session2
 
 RULE = ("corpus of repaired-defect witnesses first; exhaustive operation sequences of length 3 (quick) / 4 (thorough) over "
         "14 operations (publish q1/q2, reconnect ok/fail, loss, CONNACK, PUBACK/PUBREC/PUBCOMP for ids 1..2, inbound PUBLISH q2, "
@@ -14,7 +14,7 @@ GENERATED_ITEMS = ["msgstate:"]
 ASSUMPTIONS = [
     "whole-packet, never-blocking I/O (the fragmentation/partial-write independence is C05/C06)",
     "broker conformance as defined by Model.conforming (CONNACK first and once per connection; PUBACK/PUBREC/PUBCOMP only for a message in the matching wait state or for an unknown id)",
-    "callbacks on_publish/on_connect do not raise; ops are not nested inside callbacks (C18 covers nesting)",
+    "callbacks on_publish/on_connect do not raise; the operations of the MODELS are top-level calls; publish() from inside on_publish is run on the implementation only and judged directly (harness/nested.py: exploration)",
 ]
 KEYS = ["C13"]
 
@@ -25,9 +25,13 @@ KEYS2 = ["C13", "C13h", "FIFO"]   # checkers of the second-generation model (out
 def run(ctx, out):
     session.standard_run(ctx, out, KEYS, "C13", conforming=True)
     session2.standard_run(ctx, out, KEYS2, "C13-s2", conforming=True)
+    nested.oracle(out, "C13-nested-publish", thorough=ctx.tier == "thorough")
 
 
 def replay(payload):
+    if payload.get("case", {}).get("nested_publish"):
+        problems = nested.replay(payload["case"])
+        return (not problems), {"problems": problems}
     if str(payload.get("signature", "")).endswith("-s2") and hasattr(session2, "replay_case"):
         return session2.replay_case(payload, KEYS2)
     return session.replay_case(payload, KEYS)
